@@ -644,7 +644,7 @@ func c11Run(c *C) {
 	var out string
 	var xerr error
 	if err == nil {
-		out, xerr = tpl.Execute(ctx)
+		out, xerr = execSpread(tpl, ctx, uint64(r.Intn(4)))
 		c.Eval(1)
 	}
 	d := desc()
